@@ -72,6 +72,11 @@ Theorem C16_word_involution :
 Proof. exact wmul_self. Qed.
 Print Assumptions C16_word_involution.
 
+Theorem C16_word_involution_den :
+  forall S w, word_wf w = true -> forall psi x, word_den S w (word_den S w psi) x = psi x.
+Proof. intros S w. exact (word_den_involution S w). Qed.
+Print Assumptions C16_word_involution_den.
+
 Theorem C16_wcommute_symmetric_reflexive :
   forall a b, wcommute b a = wcommute a b /\ wcommute a a = true /\ wcommute [] b = true.
 Proof. intros a b. split; [apply wcommute_sym|]. split; [apply wcommute_self|apply wcommute_nil_l]. Qed.
